@@ -1678,19 +1678,21 @@ impl FixtureDatabase {
 
             // Check each dependency
             for dep_name in &fixture_def.dependencies {
-                // Find the dependency's definition (use resolution logic to get correct one)
-                if let Some(dep_definitions) = self.definitions.get(dep_name) {
-                    // Find best matching definition for the dependency
-                    // Use the first one (most local) - matches cycle detection behavior
-                    if let Some(dep_def) = dep_definitions.first() {
-                        // Check if scope mismatch: fixture has broader scope than dependency
-                        // FixtureScope is ordered: Function < Class < Module < Package < Session
-                        if fixture_def.scope > dep_def.scope {
-                            mismatches.push(ScopeMismatch {
-                                fixture: fixture_def.clone(),
-                                dependency: dep_def.clone(),
-                            });
-                        }
+                // Find the definition the dependency resolves to from this fixture's file
+                // (a same-named dependency is the next definition outward, not the fixture itself)
+                let dep_def = if dep_name == &fixture_def.name {
+                    self.find_closest_definition_excluding(file_path, dep_name, Some(fixture_def))
+                } else {
+                    self.find_closest_definition(file_path, dep_name)
+                };
+                if let Some(dep_def) = dep_def {
+                    // Check if scope mismatch: fixture has broader scope than dependency
+                    // FixtureScope is ordered: Function < Class < Module < Package < Session
+                    if fixture_def.scope > dep_def.scope {
+                        mismatches.push(ScopeMismatch {
+                            fixture: fixture_def.clone(),
+                            dependency: dep_def,
+                        });
                     }
                 }
             }
